@@ -283,6 +283,9 @@ func (i ItemCollection) Equals(with Item) bool {
 			return nil
 		}
 		for _, it := range i {
+			if IsNil(it) {
+				continue
+			}
 			if !w.Contains(it.GetLink()) {
 				result = false
 				return nil
